@@ -220,7 +220,8 @@ def check_program(prog, driver, target="sql.sqlite", k=2, schema=None, timeout_m
     schema = schema or SCHEMA
     text = prog.text()
     t0 = time.time()
-    r = driver.compile(text, target, want_ast=True, parse_dialect=target if target in ("sql.sqlite",) else "sql.generic")
+    executable = target in ("sql.sqlite", "sql.generic")
+    r = driver.compile(text, target, want_ast=True, parse_dialect=target if target in ("sql.sqlite", "sql.duckdb", "sql.bigquery", "sql.snowflake") else "sql.generic")
     if r.get("panic") or r.get("crash"):
         return Outcome("panic", prql=text, detail=r.get("panic") or r.get("crash"))
     if not r.get("ok"):
@@ -259,14 +260,27 @@ def check_program(prog, driver, target="sql.sqlite", k=2, schema=None, timeout_m
             else:
                 raise
     except S.BindError as e:
+        if not executable:
+            return Outcome("unconfirmed_bind", prql=text, sql=sql_text, detail=f"bind: {e} (no engine for {target} here: not reported)")
         return structural(prog, text, sql_text, schema, f"bind: {e}")
     except Unsupported as e:
-        if "LIMIT without ORDER BY" in str(e):
+        if "LIMIT without ORDER BY" in str(e) and executable:
             o = confirm_concrete(prog, text, sql_text, schema, "LIMIT without ORDER BY while the take is positional")
             if o is not None:
                 return o
         return Outcome("sql_unsupported", prql=text, sql=sql_text, detail=str(e))
     # schema: arity, then names where PRQL names the column
+    if not executable:
+        # no engine for this dialect here: the result schema computed by the binder from the re-parsed text is the
+        # observation (deterministic; re-derived on replay by compiling again)
+        exp, got = [c.name for c in ref.cols], [c.name for c in sq.cols]
+        if len(exp) != len(got):
+            return Outcome("violation", kind="arity", prql=text, sql=sql_text, data=None,
+                           detail=f"arity: final frame has {len(exp)} columns {exp}, the emitted {target} SQL returns {len(got)} {got} (schema bound from the re-parsed text); SQLite returns columns {got}, final frame is {exp}")
+        bad = [(i, e_, g_) for i, (e_, g_) in enumerate(zip(exp, got)) if e_ and e_ != g_]
+        if bad and compare_names:
+            return Outcome("violation", kind="names", prql=text, sql=sql_text, data=None,
+                           detail=f"names: {bad}; SQLite returns columns {got}, final frame is {exp}")
     if len(ref.cols) != len(sq.cols):
         return structural(prog, text, sql_text, schema,
                           f"arity: final frame has {len(ref.cols)} columns {ref.cols}, SQL returns {len(sq.cols)} {sq.cols}",
@@ -312,6 +326,8 @@ def check_program(prog, driver, target="sql.sqlite", k=2, schema=None, timeout_m
     if res != z3.sat:
         return Outcome("inconclusive", prql=text, sql=sql_text, detail=str(s.reason_unknown()), solver_s=dt)
     data = db.concrete(s.model())
+    if not executable:
+        return Outcome("unreplayable", prql=text, sql=sql_text, data=data, detail=f"no engine for {target} in this sandbox", solver_s=dt)
     if dialect == "generic" and sem.notes:
         # the reading that produced the model is not SQLite's: cannot be replayed, hence not reported
         return Outcome("unreplayable", prql=text, sql=sql_text, data=data, detail="; ".join(sorted(sem.notes)), solver_s=dt)
